@@ -40,6 +40,9 @@ func (s *simEntropy) Read(p []byte) (int, error) {
 	}
 	if s.plan.ErrAfter >= 0 && len(s.delivered) >= s.plan.ErrAfter {
 		s.errs++
+		if s.plan.EOFKind {
+			return 0, io.EOF
+		}
 		return 0, errSimEntropy
 	}
 	n := len(p)
@@ -87,6 +90,9 @@ func (s *simEntropy) record(res *Result) {
 	if s.errs > 0 {
 		res.Faults.Add(fmt.Sprintf("entropy-error@%d", s.plan.ErrAfter), s.errs)
 		res.Faults.Add("entropy-error", s.errs)
+		if s.plan.EOFKind {
+			res.Faults.Add("entropy-ran-dry(EOF)", s.errs)
+		}
 	}
 	if s.eofLast > 0 {
 		res.Faults.Add("entropy-eof-with-last-bytes", s.eofLast)
@@ -407,8 +413,9 @@ func entropyPlan(r *core.Rand, mode string, k int) *EntropyPlan {
 			p.Chunks = append(p.Chunks, c)
 			tot += c
 		}
-	case "error":
+	case "error", "eof":
 		p.ErrAfter = k
+		p.EOFKind = mode == "eof"
 		if r.Chance(0.5) {
 			for tot := 0; tot < 48; {
 				c := r.Range(1, 30)
@@ -455,8 +462,10 @@ func newWalletBatch(b *Batch, fr *core.Rand, thorough bool) {
 	}
 	// entropy error swept over every k in [0,48) for both schemes
 	for k := 0; k < 48; k++ {
-		b.Fixed = append(b.Fixed, mk(fr, 4, uint8(k%3), true, "entropy", entropyPlan(fr, "error", k)))
-		b.Fixed = append(b.Fixed, &Episode{Kind: "wallet-dil", Profile: "c09-entropy", Create: "entropy", Entropy: entropyPlan(fr, "error", k), NSigs: 1, Forms: dForms, DrainSeed: fr.Uint64()})
+		for _, mode := range []string{"error", "eof"} {
+			b.Fixed = append(b.Fixed, mk(fr, 4, uint8(k%3), true, "entropy", entropyPlan(fr, mode, k)))
+			b.Fixed = append(b.Fixed, &Episode{Kind: "wallet-dil", Profile: "c09-entropy", Create: "entropy", Entropy: entropyPlan(fr, mode, k), NSigs: 1, Forms: dForms, DrainSeed: fr.Uint64()})
+		}
 	}
 	// seeds with extreme byte patterns
 	for i, pat := range [][2]byte{{0x00, 0x00}, {0xff, 0xff}, {0xff, 0x00}, {0x00, 0xff}, {0x0f, 0xf0}, {0x20, 0x20}} {
